@@ -377,6 +377,12 @@ def correspond(ctx):
     for _ in range(plan["random_socs"]):
         cfg = L.gen_cfg(rng)
         jobs.append((cfg, rng.getrandbits(32), cap(cfg), mw))
+    # a CSR memory that is wide AND deeper than a page at once (4 CSR words per word, 96 / 65 words in a 256-word page)
+    for mdepth, mbus in ((96, "wishbone"),) + (() if quick else ((65, "axi-lite"), (128, "wishbone"))):
+        wp = dict(bus=mbus, bus_dw=32, ic="shared", csr_dw=32, paging=0x400, ordering="big", csr_aw=14, csr_origin=0, with_ctrl=False,
+                  periphs=[{"name": "p0", "regs": [{"kind": "storage", "name": "a", "size": 8}],
+                            "mems": [{"name": "m0", "width": 128, "depth": mdepth}]}], rams=[])
+        jobs.append((wp, rng.getrandbits(32), None, mw))
     rng_m = random.Random(ctx.rng.getrandbits(48))
     for cfg in mixed_grid(rng_m, plan["mixed_extra"]):
         jobs.append((cfg, rng_m.getrandbits(32), None, 20 if quick else None))
@@ -394,8 +400,8 @@ def correspond(ctx):
         "AXI-Lite presents the bus-word address, AXI4 a narrow single beat)",
         "interrupt numbers are checked end-to-end only (SoCCore around a harness-side stub CPU with 32 interrupt lines); "
         "they have no Lean model (the export is the identity on SoCIRQHandler.locs, whose allocation is C13)",
-        "CSR memories that are wider than the CSR bus word AND deeper than a page at once are built and exported but their "
-        "paged window is not driven (each of the two alone is)",
+        "CSR memories wider than the CSR bus word AND deeper than a page at once are driven through their page register in a "
+        "dedicated SoC of every run (words around every page boundary and both ends); the random generator does not produce them",
         "memory-backed slaves are walked over their whole published window in the thorough tier and over first/last/quarter/"
         "power-of-two words in the quick tier; every store is checked against the whole backing memory (exactly one cell changes)",
     ]
@@ -457,6 +463,11 @@ def probes(ctx):
     region_probe(L.R_CSR8, W_CSR8)
     region_probe(L.R_LITTLE, W_LITTLE)
     region_probe(L.R_AXIL_RD, W_AXIL_RD)
+    fails_, what_ = L.unaligned_image_probe()
+    if L.R_UNALIGNED in listed:
+        out.append((L.R_UNALIGNED, fails_, what_[:300]))
+    else:
+        ctx.cov.notes.append("withheld probe %s (not listed): %s" % (L.R_UNALIGNED, what_[:160]))
     # fixed findings: the witness must pass now
     rec, al = _alarms(W_PAGE0)
     out.append(("C14-header-base-page0-empty", bool(al), al[0][:300] if al else "csr.h agrees with JSON and the hardware"))
